@@ -7,6 +7,7 @@ import (
 	"fmt"
 	"math/big"
 	"strconv"
+	"strings"
 	"testing"
 
 	"go.lstv.dev/util/size"
@@ -130,7 +131,7 @@ func judge(c Case, w *vkit.W) {
 			flag size.Format
 			want string
 		}{{0, plain}, {size.FormatPretty, pretty}, {size.FormatPretty | size.FormatHTML, html}} {
-			for _, prefix := range []string{"x", "free space: ", "0123456789abcdef"} {
+			for _, prefix := range []string{"x", "free space: ", "0123456789abcdef", strings.Repeat("#", 96)} {
 				for _, room := range []int{0, 1, len(f.want) - 1, len(f.want), len(f.want) + 1, len(f.want) + 7} {
 					if room < 0 {
 						continue
